@@ -405,11 +405,17 @@ class MemoryModel:
                             out.append((cb, blk.idx, fs[-1], st.line, base))
                 # moving a field of a looked-up entry out / replacing it in place (`mem::take(&mut entry.content)`)
                 t = blk.term
-                if t.kind == "call" and short(t.callee() or "") in ("mem::take", "mem::replace", "mem::swap"):
-                    for a in t.args:
+                if t.kind == "call" and short(t.callee() or "") in (
+                        "mem::take", "mem::replace", "mem::swap", "Arc::make_mut", "Vec::clear", "Vec::truncate", "Vec::extend_from_slice",
+                        "Vec::push", "Vec::append", "Vec::drain", "Vec::resize", "Vec::split_off", "Vec::insert", "Vec::remove"):
+                    for a in t.args[:2] if short(t.callee() or "").startswith("mem::") else t.args[:1]:
                         x = norm(tr.operand(a))
-                        if x[0] == "field" and any(y[0] == "call" and y[1] in ("HashMap::get_mut", "HashMap::entry", "HashMap::get") for y in walk(x[1])):
-                            out.append((cb, blk.idx, x[2], t.line, x[1]))
+                        # the field itself, or what is behind it (`Arc::get_mut(&mut entry.content)` -> `mem::take(bytes)`)
+                        for f_ in walk(x):
+                            if f_[0] == "field" and any(y[0] == "call" and y[1] in ("HashMap::get_mut", "HashMap::entry", "HashMap::get")
+                                                         for y in walk(f_[1])):
+                                out.append((cb, blk.idx, f_[2], t.line, f_[1]))
+                                break
         return out
 
     def handle_sites(self, b, suffixes):
